@@ -87,3 +87,21 @@ def algorithm_frefs(prog):
 
 def mains(prog):
     return [f for f in prog.functions if f.g == 'main']
+
+
+def driver_body(prog, main):
+    """the function that plays the role of the driver: main itself, or - when main only parses the options and ends with
+    `return worker(...)` - that worker (a function with a body in the same file that reads the graph)"""
+    if any(n.k in ('CallExpr',) and n.callee and n.callee['g'] == 'parmcb::read_dimacs_from_file' for n in main.walk()):
+        return main
+    from lib import ex as _ex
+    cands = []
+    for r in _ex.returns_of(main):
+        c = r.c[0].strip_all() if r.c else None
+        if c is not None and c.k == 'CallExpr' and c.callee_id is not None:
+            hf = prog.fn_of_fref(c.callee_id)
+            if hf is not None and hf.body is not None and hf.file == main.file and \
+                    any(n.k == 'CallExpr' and n.callee and n.callee['g'] == 'parmcb::read_dimacs_from_file' for n in hf.walk()):
+                # the worker's status must be the program's status on the path that reaches it: `return worker(...)` is exactly that
+                cands.append(hf)
+    return cands[0] if len(set(id(c) for c in cands)) == 1 else main
